@@ -1090,10 +1090,12 @@ package main
 // C09: routing.  A match that returns without a default arm has been through exaustiveCheck (so it covers
 // every case); a default arm is accepted only where the next arm is inside the enclosing offside.
 //@ func isDefaultMR
-//@   trusted
+//@   props C09 C06
+//@   requires live: live(ps)
 //@   panics may
-//@   returns is_default_mr(ps)
-//@   note abstract: "| _" follows (token look-ahead)
+//@   returns-def is_default_mr(ps)
+//@   ensures meaning: result == (ps.tkz.current.ttype == New_TokenType_BAR && adv(ps).tkz.current.ttype == New_TokenType_UNDER_SCORE)
+//@   note is_default_mr(ps) NAMES the value of this look-ahead: "| _" follows
 
 
 //@ func parseURules
@@ -1191,11 +1193,15 @@ package main
 //@   ensures progress: result.E0.tkz.current.begin > ps.tkz.current.begin
 
 //@ func parseExtDefs
-//@   trusted
+//@   props C03 C07 C06
+//@   modifies maps glob:vardefs glob:typeregs
+//@   requires live: live(ps)
+//@   requires offside-stack-non-empty: len(ps.offsideCol) >= 1
 //@   panics may
+//@   decreases rem(ps)
 //@   ensures scope-kept: result.scope == ps.scope
-//@   ensures live: live(ps) ==> live(result) && samebuf(result, ps)
-//@   note abstract: the declarations of the block (they register into the scope they are handed); the parser returns with the scope it was given
+//@   ensures live: live(result) && samebuf(result, ps) && result.offsideCol == ps.offsideCol
+//@   ensures block-ends-left-of-its-column-or-at-the-end: result.tkz.col < result.offsideCol[len(result.offsideCol) - 1] || result.tkz.current.ttype == New_TokenType_EOF || result.tkz.current.ttype == New_TokenType_RPAREN
 
 //@ func piRegAll
 //@   trusted
@@ -1482,6 +1488,7 @@ package main
 //@   modifies maps glob:vardefs
 //@   panics may
 //@   ensures logged: glob(vardefs) == def_var(old(glob(vardefs)), s, name, v)
+//@   ensures only-the-scope-dictionary: mapsframe_except(scdict(s).VarFacMap.Fdict)
 //@   note abstract: defines a variable in the innermost dictionary of the scope
 
 //@ func parseLetOneVarDef
@@ -1698,12 +1705,14 @@ package main
 //@   modifies maps glob:typeregs
 //@   panics may
 //@   ensures logged: glob(typeregs) == reg_type(old(glob(typeregs)), s, name)
+//@   ensures only-the-scope-dictionary: mapsframe_except(scdict(s).TypeFacMap.Fdict)
 
 //@ func scRegisterVarFac
 //@   trusted
 //@   modifies maps glob:vardefs
 //@   panics may
 //@   ensures logged: glob(vardefs) == reg_varfac(old(glob(vardefs)), s, name)
+//@   ensures only-the-scope-dictionary: mapsframe_except(scdict(s).VarFacMap.Fdict)
 
 //@ func udToUniFac
 //@   trusted
@@ -1894,3 +1903,142 @@ package main
 //@   panics may
 //@   ensures at-least-one: len(result.E1) >= 1
 //@   ensures live: live(result.E0) && samebuf(result.E0, ps)
+
+// a match: a default arm alone is rejected; a target whose type is a union is parsed by the union rules
+// (and so goes through the exhaustiveness routing of parseURules), never by the string rules
+//@ func isUnionMatchRules
+//@   props C09
+//@   requires live: live(ps0)
+//@   panics may
+//@   ensures union-target: is(FType_FUnion, exprtype(target)) ==> result
+//@   ensures string-target: is(FType_FString, exprtype(target)) ==> !result
+
+//@ func isStringMatchRules
+//@   trusted
+//@   panics may
+//@ func parseSRules
+//@   trusted
+//@   modifies maps glob:vardefs
+//@   panics may
+
+//@ func parseMatchRules
+//@   props C09
+//@   modifies maps glob:vardefs
+//@   requires live: live(ps)
+//@   requires offside-stack-non-empty: len(ps.offsideCol) >= 1
+//@   requires block-parser-keeps-the-token-stream: forall p ParseState :: {pBlock(p)} live(p) ==> live(pBlock(p).E0) && samebuf(pBlock(p).E0, p)
+//@   requires block-parser-keeps-the-offside-stack: forall p ParseState :: {pBlock(p)} pBlock(p).E0.offsideCol == p.offsideCol
+//@   requires block-parser-keeps-the-scope: forall p ParseState :: {pBlock(p)} pBlock(p).E0.scope == p.scope
+//@   panics may
+//@   ensures default-arm-alone-is-rejected: !(ps.tkz.current.ttype == New_TokenType_BAR && adv(ps).tkz.current.ttype == New_TokenType_UNDER_SCORE)
+//@   ensures union-target-is-parsed-by-the-union-rules: is(FType_FUnion, exprtype(target)) ==> is(MatchRules_RUnions, result.E1)
+
+//@ func parseMatchExpr
+//@   props C06 C09
+//@   modifies maps glob:vardefs
+//@   ghost P ParseState          -- the state at which the rules are parsed
+//@   requires live: live(ps)
+//@   requires offside-stack-non-empty: len(ps.offsideCol) >= 1
+//@   requires expression-parser-keeps-the-token-stream: forall p ParseState :: {pExpr(p)} live(p) ==> live(pExpr(p).E0) && samebuf(pExpr(p).E0, p) && pExpr(p).E0.offsideCol == p.offsideCol
+//@   requires block-parser-keeps-the-token-stream: forall p ParseState :: {pBlock(p)} live(p) ==> live(pBlock(p).E0) && samebuf(pBlock(p).E0, p)
+//@   requires block-parser-keeps-the-offside-stack: forall p ParseState :: {pBlock(p)} pBlock(p).E0.offsideCol == p.offsideCol
+//@   requires block-parser-keeps-the-scope: forall p ParseState :: {pBlock(p)} pBlock(p).E0.scope == p.scope
+//@   panics may
+//@   ensures rules-start-after-line-breaks: P.tkz.current.ttype != New_TokenType_EOL
+//@   ensures target-is-the-expression-after-match: result.E1.Target == pExpr(adv(ps)).E1 && ps.tkz.current.ttype == New_TokenType_MATCH
+//@   ensures C09 union-target-is-parsed-by-the-union-rules: is(FType_FUnion, exprtype(result.E1.Target)) ==> is(MatchRules_RUnions, result.E1.Rules)
+//@   at before call parseMatchRules#0: P = ps2
+
+// ---------------------------------------------------------------------------------------------
+// C03, package_info: a declaration `let name<T,..>: A->B->C` records under `name` the signature that was
+// written (a derivation of the type grammar), and makes `name` callable in the block's scope; the
+// registration afterwards makes it callable under its package-qualified name.
+// ---------------------------------------------------------------------------------------------
+
+//@ func mightParseIdList
+//@   trusted
+//@   panics may
+//@   ensures live: live(ps) ==> live(result.E0) && samebuf(result.E0, ps) && result.E0.tkz.current.begin >= ps.tkz.current.begin
+//@   ensures frame: result.E0.scope == ps.scope && result.E0.offsideCol == ps.offsideCol
+//@   note abstract: an optional <T, U> list of type-parameter names
+
+//@ func psRegTypeVars
+//@   trusted
+//@   modifies maps glob:typeregs
+//@   panics may
+//@   note abstract: registers the type-parameter names as type variables in the scope
+
+//@ func scRegFunFac
+//@   props C03
+//@   modifies maps glob:vardefs
+//@   panics may
+//@   ensures logged: glob(vardefs) == reg_varfac(old(glob(vardefs)), sc, fname)
+//@   ensures only-the-scope-dictionary: mapsframe_except(scdict(sc).VarFacMap.Fdict)
+
+//@ func piRegFF
+//@   props C03
+//@   modifies maps glob:vardefs
+//@   panics may
+//@   ensures recorded: has(pi.FuncInfo.Fdict, fname) && pi.FuncInfo.Fdict[fname] == ff
+//@   ensures callable-in-the-block: glob(vardefs) == reg_varfac(old(glob(vardefs)), ps.scope, fname)
+//@   ensures state-kept: result == ps
+
+//@ func parseExtFuncDef
+//@   props C03
+//@   modifies maps glob:vardefs glob:typeregs
+//@   ghost PT ParseState         -- the state at which the signature starts
+//@   requires live: live(ps)
+//@   panics may
+//@   ensures name: ps.tkz.current.ttype == New_TokenType_LET && adv(ps).tkz.current.ttype == New_TokenType_IDENTIFIER
+//@   ensures signature-as-written: has(pi.FuncInfo.Fdict, adv(ps).tkz.current.stringVal) && Rarrows(PT, result, pi.FuncInfo.Fdict[adv(ps).tkz.current.stringVal].Targets)
+//@   ensures callable-in-the-block: glob(vardefs) == reg_varfac(old(glob(vardefs)), result.scope, adv(ps).tkz.current.stringVal)
+//@   ensures scope-kept: result.scope == ps.scope
+//@   ensures live: live(result) && samebuf(result, ps) && result.offsideCol == ps.offsideCol
+//@   ensures progress: result.tkz.current.begin > ps.tkz.current.begin
+//@   at before call parseTypeArrows#0: PT = _r0
+
+//@ func regFF
+//@   props C03
+//@   modifies maps glob:vardefs
+//@   panics may
+//@   ensures registered-under-the-qualified-name: glob(vardefs) == reg_varfac(old(glob(vardefs)), sc, ite(pi.Name == "_", sff.E0, pi.Name + "." + sff.E0))
+
+//@ func GenType
+//@   trusted
+//@   panics may
+//@ func scRegTFData
+//@   props C03
+//@   modifies maps glob:typeregs
+//@   panics may
+//@   ensures logged: glob(typeregs) == reg_type(old(glob(typeregs)), sc, tname)
+//@   ensures only-the-scope-dictionary: mapsframe_except(scdict(sc).TypeFacMap.Fdict)
+
+// `type Name<T,..>` inside package_info: known in the block under its plain name, denoting the
+// package-qualified Go type; registered afterwards under the qualified name
+//@ func parseExtTypeDef
+//@   props C03
+//@   modifies maps glob:typeregs
+//@   requires live: live(ps)
+//@   panics may
+//@   ensures name: ps.tkz.current.ttype == New_TokenType_TYPE && adv(ps).tkz.current.ttype == New_TokenType_IDENTIFIER
+//@   ensures recorded-with-the-qualified-name: has(pi.TypeInfo.Fdict, adv(ps).tkz.current.stringVal) && pi.TypeInfo.Fdict[adv(ps).tkz.current.stringVal].Name == ite(pi.Name == "_", adv(ps).tkz.current.stringVal, pi.Name + "." + adv(ps).tkz.current.stringVal)
+//@   ensures known-in-the-block-under-the-plain-name: glob(typeregs) == reg_type(old(glob(typeregs)), result.scope, adv(ps).tkz.current.stringVal)
+//@   ensures scope-kept: result.scope == ps.scope
+//@   ensures live: live(result) && samebuf(result, ps) && result.offsideCol == ps.offsideCol
+//@   ensures progress: result.tkz.current.begin > ps.tkz.current.begin
+
+//@ func regTF
+//@   props C03
+//@   modifies maps glob:typeregs
+//@   panics may
+//@   ensures registered-under-the-recorded-name: glob(typeregs) == reg_type(old(glob(typeregs)), sc, etp.E1.Name)
+
+//@ func parseExtDef
+//@   props C03
+//@   modifies maps glob:vardefs glob:typeregs
+//@   requires live: live(ps)
+//@   panics may
+//@   ensures only-let-and-type: ps.tkz.current.ttype == New_TokenType_LET || ps.tkz.current.ttype == New_TokenType_TYPE
+//@   ensures scope-kept: result.scope == ps.scope
+//@   ensures live: live(result) && samebuf(result, ps) && result.offsideCol == ps.offsideCol
+//@   ensures progress: result.tkz.current.begin > ps.tkz.current.begin
